@@ -156,14 +156,15 @@ def _world():
     # embedding application's ProvQ (inside SB alone there is no conflict)
     w['SB'] = Application([Route('/ok', _mk_ep('sb-ok')), Route('/clash', _mk_ep('sb-clash'), middlewares=[OtherProvQ()]),
                            Route('/after', _mk_ep('sb-after'))])
-    w['apps'] = [Application([], middlewares=[ProvQ()]), Application([Route('/b0', _mk_ep('b0'))], middlewares=[ProvQ()])]
+    w['apps'] = [Application([], middlewares=[ProvQ()], resources={'res_a': 'A'}),
+                 Application([Route('/b0', _mk_ep('b0'))], middlewares=[ProvQ()], resources={'res_b': 'B'})]
     w['model'] = [[], [('/b0', 'b0')]]
     return w
 
 
 def _snapshot(w):
     def rsnap(r):
-        return (r.pattern, id(r.endpoint), tuple(r.middlewares), tuple(sorted(r.resources)), r.methods, r.slash_mode, id(r.render))
+        return (r.pattern, id(r.endpoint), tuple(r.middlewares), tuple(sorted(r.resources.items())), r.methods, r.slash_mode, id(r.render))
 
     def asnap(a):
         return (tuple(id(r) for r in a.routes), tuple(r.pattern for r in a.routes), tuple(sorted(a.resources)),
